@@ -156,15 +156,23 @@ def sizesKnown (q : Parsed) : Bool :=
 def eraseSizes (t : List Sys) : List Sys :=
   t.filter fun x => match x with | .writeTmp _ => false | _ => true
 
+/-- The destination before a pull is abstract ("whatever was there"): it is unchanged by `ops` iff it
+comes out as it went in from two different starting contents (a published content that happens to equal
+one marker cannot equal both). -/
+def destWord (tmp0 : Option Bytes) (ops : List Op) : String :=
+  let a := runOps ⟨some [0], tmp0⟩ ops
+  let b := runOps ⟨some [1], tmp0⟩ ops
+  if a.dest = some [0] ∧ b.dest = some [1] then "same" else match a.dest with
+    | some c => digest c
+    | none => "gone"
+
 def runOf (q : Parsed) : Run := run Gen.Commit.steps q.p q.s q.codec
 
 def scriptObs (q : Parsed) : String :=
   let r := runOf q
   -- the destination before the pull is abstract: `[0]` stands for "whatever was there"
   let fs := runOps ⟨some [0], if q.stale then some [0xEE, 0xEE] else none⟩ r.ops
-  let dest := if fs.dest = some [0] then "same" else match fs.dest with
-    | some c => digest c
-    | none => "gone"
+  let dest := destWord (if q.stale then some [0xEE, 0xEE] else none) r.ops
   -- a panicking `verify` has the file-system effect of a rejecting one (the unwinding drops the guard);
   -- the call unwinds instead of returning `Err` exactly when `verify` is reached
   let reached := q.verifyPanics && q.p.verifies &&
@@ -186,10 +194,7 @@ def scriptObs (q : Parsed) : String :=
 def killStates (q : Parsed) : List String :=
   let r := runOf q
   (List.range (r.ops.length + 1)).map fun k =>
-    let fs := runOps ⟨some [0], none⟩ (crash k r.ops)
-    if fs.dest = some [0] then "same" else match fs.dest with
-      | some c => digest c
-      | none => "gone"
+    destWord none (crash k r.ops)
 
 /-- The pull of this script runs into a connection cut: the client is dead afterwards. -/
 def hitsCut (q : Parsed) : Bool :=
@@ -270,8 +275,7 @@ def step (st : Unit) (ws : List String) : Unit × String :=
     | some qs => (st, joinSp (idx :: qs.map fun q =>
         let r := runOf q
         let fs := runOps ⟨some [0], none⟩ r.ops
-        joinSp ["| ret", showRet r.ret, "dest", (if fs.dest = some [0] then "same" else match fs.dest with
-          | some c => digest c | none => "gone"), "tmp", if fs.tmp.isSome then "1" else "0"]))
+        joinSp ["| ret", showRet r.ret, "dest", destWord none r.ops, "tmp", if fs.tmp.isSome then "1" else "0"]))
     | none => (st, idx ++ " bad-op")
   | "cancel" :: idx :: _ms :: rest =>
     -- a pull dropped by its caller: the destination is one of the states a kill can leave
@@ -300,8 +304,7 @@ def step (st : Unit) (ws : List String) : Unit × String :=
           let short := fun (q : Parsed) =>
             let r := runOf q
             let fs := runOps ⟨some [0], none⟩ r.ops
-            joinSp ["ret", showRet r.ret, "dest", (if fs.dest = some [0] then "same" else match fs.dest with
-              | some c => digest c | none => "gone"), "tmp", if fs.tmp.isSome then "1" else "0"]
+            joinSp ["ret", showRet r.ret, "dest", destWord none r.ops, "tmp", if fs.tmp.isSome then "1" else "0"]
           (st, joinSp [idx, "A", short qa, "B", short qb])
       | _ => (st, idx ++ " bad-op")
     | _, _, _ => (st, idx ++ " bad-op")
